@@ -20,16 +20,21 @@ class Fn:
 
 
 class Gen:
-    def __init__(self, rng, quantum=False, edge=False, tracked=False, max_qubits=5):
+    def __init__(self, rng, quantum=False, edge=False, tracked=False, max_qubits=5, qprob=0.35, main_len=(3, 9)):
         self.rng = rng
         self.quantum = quantum
         self.edge = edge
         self.tracked = tracked
         self.max_qubits = max_qubits
+        self.qprob = qprob
+        self.main_len = main_len
         self.fns = []
         self.counter = 0
         self.features = set()
         self.qubits_declared = 0
+        self.qfns = []
+        self.maybe_measured = set()
+        self.nest = 0
 
     def fresh(self, pre="v"):
         self.counter += 1
@@ -169,14 +174,16 @@ class Gen:
         env = dict(env)
         qenv = dict(qenv)
         out = []
+        self.nest += 1
         for _ in range(n if n is not None else r.randrange(1, 5)):
             out.append(self.stmt(env, depth, qenv, in_loop, ret))
+        self.nest -= 1
         return "{ " + " ".join(out) + " }"
 
     def stmt(self, env, depth, qenv, in_loop, ret):
         r = self.rng
         k = r.random()
-        if self.quantum and k < 0.35:
+        if self.quantum and r.random() < self.qprob:
             return self.qstmt(env, qenv, in_loop)
         if k < 0.30 or not env:
             ty = r.choice(SCALARS)
@@ -287,35 +294,86 @@ class Gen:
             self.features.add("qubit-array")
             return "%squbit[%d] %s;" % (tr, size, n)
 
-        def operand():
+        pre = []
+
+        def operand(for_measure=False):
             if arrays and (not singles or r.random() < 0.35):
                 a = r.choice(arrays)
-                return "%s[%d]" % (a, r.randrange(qenv[a][1]))
-            return r.choice(singles)
+                o = "%s[%d]" % (a, r.randrange(qenv[a][1]))
+            else:
+                o = r.choice(singles)
+            # a qubit that may already be measured is usually reset first (the refusal path stays reachable)
+            if (o in self.maybe_measured or in_loop) and r.random() < 0.85:
+                pre.append("reset %s;" % o)
+                if self.nest <= 1:
+                    self.maybe_measured.discard(o)      # a reset inside a branch/loop may not execute
+            if for_measure:
+                self.maybe_measured.add(o)
+            return o
+
+        def done(s):
+            return " ".join(pre + [s])
+        if self.qfns and k < 0.30:
+            name, kinds, ret = r.choice(self.qfns)
+            args = []
+            ok = True
+            for kd in kinds:
+                if kd == "q":
+                    args.append(operand())
+                elif arrays:
+                    args.append(r.choice(arrays))
+                else:
+                    ok = False
+            if ok and len(set(args)) < len(args) and r.random() < 0.9:
+                ok = False
+            if ok:
+                self.features.add("qubit-param-call")
+                if ret == "bit":
+                    n = self.fresh("b")
+                    env[n] = "bit"
+                    self.maybe_measured.update(args)
+                    return done("bit %s = %s(%s);" % (n, name, ", ".join(args)))
+                return done("%s(%s);" % (name, ", ".join(args)))
         if k < 0.55:
             g = r.choice(["h", "x", "y", "z", "rx", "ry", "rz", "cx"])
             self.features.add("gate")
             if g in ("rx", "ry", "rz"):
                 ang = r.choice(["0.5f", "1.5f", "3.140625f", "0.25f", "2.0f", "-0.75f" if False else "0.75f"])
-                return "%s(%s, %s);" % (g, operand(), ang)
+                return done("%s(%s, %s);" % (g, operand(), ang))
             if g == "cx":
                 a, b = operand(), operand()
-                return "cx(%s, %s);" % (a, b)          # a == b is possible: runtime error path
-            return "%s(%s);" % (g, operand())
+                if a == b and r.random() < 0.8:
+                    return done("h(%s);" % a)
+                return done("cx(%s, %s);" % (a, b))          # a == b stays possible: runtime error path
+            return done("%s(%s);" % (g, operand()))
         if k < 0.72:
             self.features.add("measure")
             if arrays and r.random() < 0.3:
-                return "measure %s;" % r.choice(arrays)
+                a = r.choice(arrays)
+                els = ["%s[%d]" % (a, i) for i in range(qenv[a][1])]
+                for e in els:
+                    if e in self.maybe_measured and r.random() < 0.85:
+                        pre.append("reset %s;" % e)
+                self.maybe_measured.update(els)
+                return done("measure %s;" % a)
             if r.random() < 0.5:
                 n = self.fresh("b")
                 env[n] = "bit"
-                return "bit %s = measure %s;" % (n, operand())
-            return "measure %s;" % operand()
+                return done("bit %s = measure %s;" % (n, operand(True)))
+            return done("measure %s;" % operand(True))
         if k < 0.86:
             self.features.add("reset")
-            return "reset %s;" % operand()
+            o = operand()
+            if self.nest <= 1:
+                self.maybe_measured.discard(o)
+            return done("reset %s;" % o)
         self.features.add("measure-cond")
-        return "if (measure %s) { x(%s); }" % (operand(), operand())
+        t = operand()
+        m = operand(True)
+        self.maybe_measured.add(m)
+        if t == m:
+            return done("measure %s;" % m)
+        return done("if (measure %s) { x(%s); }" % (m, t))
 
     # ---------------------------------------------------------------- whole programs
     def function(self, idx):
@@ -330,6 +388,23 @@ class Gen:
         # body is "{ ... }": splice the final return in
         src = "function %s(%s) -> %s %s" % (name, ", ".join("%s %s" % p for p in params), ret, body[:-1] + tail + " }")
         self.fns.append(Fn(name, params, ret))
+        return src
+
+    def qfunction(self):
+        """a helper that takes qubits (and maybe a qubit[]) by parameter: the access path 'function parameter'"""
+        r = self.rng
+        name = "qf%d" % len(self.qfns)
+        self.features.add("qubit-param")
+        k = r.randrange(3)
+        if k == 0:
+            src = "function %s(qubit a, qubit b) -> void { h(a); cx(a, b); }" % name
+            self.qfns.append((name, ["q", "q"], "void"))
+        elif k == 1:
+            src = "@quantum function %s(qubit a) -> bit { %s(a); bit m = measure a; return m; }" % (name, r.choice(["h", "x", "y"]))
+            self.qfns.append((name, ["q"], "bit"))
+        else:
+            src = "function %s(qubit[] rs, qubit c) -> void { cx(c, rs[0]); %s(rs[0]); }" % (name, r.choice(["z", "h", "x"]))
+            self.qfns.append((name, ["qa", "q"], "void"))
         return src
 
     def recursive_function(self):
@@ -347,6 +422,9 @@ class Gen:
             parts.append(self.function(i))
         if r.random() < 0.3:
             parts.append(self.recursive_function())
-        main = "function main() -> void " + self.block({}, 2, {}, n=r.randrange(3, 9), ret="void")
+        if self.quantum:
+            for _ in range(r.randrange(0, 3)):
+                parts.append(self.qfunction())
+        main = "function main() -> void " + self.block({}, 2, {}, n=r.randrange(*self.main_len), ret="void")
         parts.append(main)
         return "\n".join(parts)
